@@ -94,6 +94,10 @@ def main():
                     if t2 != t:
                         open(fp, "w").write(t2)
             cmds = cmds.replace(origin + "/SEED", run_dir).replace(origin, wt)
+            try:
+                os.symlink(run_dir, os.path.join(wt, "SEED"))     # scripts that build the path as <worktree>/SEED
+            except OSError:
+                pass
             lines = [l for l in cmds.splitlines() if l.strip() and not l.strip().startswith("#")]
             script = "\n".join(lines)
             open("/tmp/sv_%s_demo.sh" % sid, "w").write("set -e\n" + script + "\n")
